@@ -52,6 +52,21 @@ CHECKS['C02'] = ('DESIGN.md#C02',
     'Trusted: numpy summation (rel 1e-10), astropy.wcs for the sky/pixel '
     'transformation. Images <= 40x40, apertures <= 12 px.')
 
+CHECKS['C16'] = ('DESIGN.md#C16',
+    'Hypothesis-generated images/masks/apertures/positions/sigma-clip/local '
+    'background vs. direct statistics of the independently constructed '
+    'aperture pixel set (differential oracle)',
+    'Generated-input search: for every position the pixel set is rebuilt '
+    'from the geometric oracle (centre method for statistics, sum_method '
+    'weights for sums), astropy SigmaClip is applied to the 1-D sample and '
+    'every listed statistic, the centroid and the moment-based shape '
+    'parameters are recomputed directly and compared (rel 1e-8..1e-9); NaN '
+    'is required for empty pixel sets and every public property must '
+    'evaluate. Held on N cases; not a proof.',
+    'Trusted: numpy, astropy.stats reference functions on 1-D samples. '
+    'Ambiguous (sub)pixel-centre classifications and known finding F24 '
+    'inputs are excluded and counted. Pixel values up to 1e30.')
+
 NOT_APPLICABLE = []
 
 
